@@ -66,8 +66,44 @@ def run_core(kind, prop, tier, seed):
     return out
 
 
+TIMER_CFG = ("MCTimers_quick.cfg", "MCTimers_deep.cfg", "MCTimers_sim.cfg", 60, 1200, 12)
+
+
+def run_timers(prop, tier, seed, cap=None):
+    import random
+    qc, tc, sc, qn, tn, depth = TIMER_CFG
+    out = {"states": 0, "transitions": 0, "cases": [], "violations": [], "specs": ["Timers/" + (qc if tier == "quick" else tc), "Timers/" + sc]}
+    st, tr, bad, text = _tlc_mc("MCTimers.tla", qc if tier == "quick" else tc, "tm-%s" % prop)
+    out["states"] += st
+    out["transitions"] += tr
+    if bad:
+        out["violations"].append({"why": "design spec Timers violates the abstract monitor / its structural invariants: see TLC counterexample",
+                                  "replay": _save("%s-timers-mc" % prop, text), "sig": "tlc"})
+        return out
+    n, bad, text = _tlc_sim("MCTimers.tla", sc, "tmsim-%s" % prop, qn if tier == "quick" else tn, depth, seed)
+    out["states"] += n
+    out["transitions"] += n
+    if bad:
+        out["violations"].append({"why": "design spec Timers (simulation) violates the abstract monitor / its structural invariants",
+                                  "replay": _save("%s-timers-sim" % prop, text), "sig": "tlc"})
+        return out
+    behs = coreexport.parse_cases(text, "TCASE")
+    cap = cap or (2500 if tier == "quick" else 40000)
+    if len(behs) > cap:
+        random.Random(seed).shuffle(behs)
+        behs = behs[:cap]
+    for i, b in enumerate(behs):
+        out["cases"].append(coreexport.build_timer_case(b, "tm-%d" % i))
+    return out
+
+
 # property -> list of runners
 SPECS = {
+    "C07": [lambda p, t, s: run_timers(p, t, s)],
+    "C08": [lambda p, t, s: run_timers(p, t, s)],
+    "C09": [lambda p, t, s: run_timers(p, t, s)],
+    "C10": [lambda p, t, s: run_timers(p, t, s)],
+    "C19": [lambda p, t, s: run_timers(p, t, s, cap=800), lambda p, t, s: run_core("q", p, t, s)],
     "C01": [lambda p, t, s: run_core("q", p, t, s)],
     "C06": [lambda p, t, s: run_core("q", p, t, s)],
     "C15": [lambda p, t, s: run_core("q", p, t, s)],
